@@ -31,6 +31,7 @@ class Discipline:
     def __init__(self, F):
         self.F = F
         self.summ = {}          # fn -> may return dirty
+        self.idioms = set()
         self.witness = {}       # fn -> (block path, reason)
         direct = set()
         for name, f in F.fns.items():
@@ -108,6 +109,15 @@ class Discipline:
                     return (flag[2], cq)
             if flag == 'd' and lab is True and sw.kind == 'bool' and (ids & cq) and strip(sw.subject)[0] == 'call' and strip(sw.subject)[1] == ST + 'is_closed':
                 return ('c', cq)
+            # idiom: the stream just popped is the one the caller is operating on (Resolve::current_key): the caller
+            # holds a Ptr to it and runs the transition itself (checked for every caller through this same rule)
+            c = core.cmp_of(sw)
+            if flag == 'd' and c is not None and c[0] in ('Eq', 'Ne') and any(x[0] == 'call' and x[1].endswith('::current_key') for x in core.walk(sw.subject)) \
+                    and any(x[0] == 'call' and x[1].endswith('store::Ptr::key') for x in core.walk(sw.subject)):
+                same = (c[0] == 'Eq' and lab is True) or (c[0] == 'Ne' and lab is False)
+                if same:
+                    self.idioms.add((f.name, 'popped stream == caller\'s current stream'))
+                    return ('c', cq)
             return us
         try:
             exits, ins, parent = core.scan(f, ('c', frozenset()), None, on_term, on_edge, cap=256, track_ret=True)
